@@ -251,6 +251,31 @@ def _leaves(t):
         yield t
 
 
+def _every_vm_bounds(ctx, meth, limit):
+    """does EVERY implementation of vm.<meth> (the VM base class and each subclass that overrides it) refuse an operand longer than
+    `limit` bytes before reading it?  A bound in the base class alone is no bound: BitcoinVM overrides these methods"""
+    key = ("vm-bounds", meth, limit)
+    if key in ctx.cache:
+        return ctx.cache[key]
+    impls = []
+    for q, c in ctx.p.classes.items():
+        if meth in c.methods and any(x.name == "VM" or x.name.endswith("VM") for x in ctx.p.mro(c)):
+            impls.append(c.methods[meth])
+    ok = bool(impls)
+    for m in impls:
+        try:
+            w = sym.int_walk(ctx, m, {"len(self[-1])", "len(self.stack[-1])"})
+            raises = [e for e in w.exits if e.kind == "raise"]
+            fr = gi.f_or(*[e.cond for e in raises]) if raises else False
+            must = sym.must_set(fr, U, E) if fr is not False else E
+            if not iv(limit + 1, None).issubset(must):
+                ok = False
+        except Exception:
+            ok = False
+    ctx.cache[key] = ok
+    return ok
+
+
 # ------------------------------------------------------------------ C03.3
 def c03_3(ctx):
     hs = _live_handlers(ctx)
@@ -273,7 +298,13 @@ def c03_3(ctx):
             if nm in ("%s.pop_int" % vm, "%s.pop_nonnegative" % vm):
                 sites += 1
                 lens = sym.may_set(e.reach, U, E)
-                ctx.check(lens.issubset(iv(None, limit)), "unbounded-numeric-read:%s" % fi.name, ctx.where(fi, e.node),
+                meth = nm.split(".")[-1]
+                if not lens.issubset(iv(None, limit)) and _every_vm_bounds(ctx, meth, limit):
+                    ctx.ok("%s:%s:bounded-by-the-method" % (fi.name, nm), sample={"handler": fi.qualname, "read": nm, "bound_in": "every implementation of %s" % meth})
+                    continue
+                # over the handler's inputs, and over every class that supplies the method: evidence of its own, however the
+                # handler is organised
+                ctx.check(lens.issubset(iv(None, limit)), "unbounded-numeric-read:%s" % fi.name, ctx.where(fi, e.node), semantic=True, msg=
                           "%s reads a script number with %s() when the operand has length %s: operands longer than %d bytes must be refused first (consensus: script-number overflow)"
                           % (fi.name, nm, lens.fmt(), limit), what="%s:%s:L%d" % (fi.name, nm, getattr(e.node, "lineno", 0) - fi.node.lineno),
                           sample={"handler": fi.qualname, "read": nm, "bound": limit, "read_for_lengths": lens.fmt()})
@@ -407,7 +438,7 @@ def c03_5(ctx):
     may, must = reach_sets(ex, notnone, U, E)
     ctx.check(may == (iv(0, 0) | iv(81, 96)), "witness-version-opcode", ctx.where(f), "_witness_program_version accepts version opcodes %s, BIP141: OP_0 or OP_1..OP_16" % may.fmt())
     cv = it.get(f.module.name, "SegwitChecker")
-    ctx.check((it.getattr(cv, "OP_0"), it.getattr(cv, "OP_1"), it.getattr(cv, "OP_16")) == (0, 81, 96), "witness-opcode-constants", ctx.where(f), "SegwitChecker.OP_0/OP_1/OP_16 do not evaluate to 0/81/96")
+    ctx.check((it.getattr(cv, "OP_0"), it.getattr(cv, "OP_1"), it.getattr(cv, "OP_16")) == (0, 81, 96), "witness-opcode-constants", ctx.where(f), "SegwitChecker.OP_0/OP_1/OP_16 evaluate to %r, not 0/81/96" % ((it.getattr(cv, "OP_0"), it.getattr(cv, "OP_1"), it.getattr(cv, "OP_16")),))
     # v0 program lengths
     f = ctx.func(SEG, "SegwitChecker._check_witness_program_v0")
     w = GuardWalker(SymbolicAtomizer(ru.subject({"size", "len(witness_program)"}, df.single_defs(f.node)), ru.const_resolver(ctx, f, set())))
